@@ -175,4 +175,41 @@ theorem bdd_sizeDec : BddPrim (fun r => derTSIZEDec r 2) Prod.snd := by
   · simp only [e]; exact ⟨by simp, fun _ h => by cases h⟩
   · simp only [e]; exact ⟨by simp, fun a h => by cases h; exact hc⟩
 
+theorem bdd_dUintP : BddStep dUintP := by
+  intro st p rest hl
+  unfold dUintP
+  rcases derTUINTDec_cases rest 2 hl with e | ⟨v, c, e, hc⟩
+  · rw [e]; exact ⟨by simp, fun _ _ h => by cases h⟩
+  · rw [e]; simp only []
+    split
+    · exact ⟨by simp, fun _ _ h => by cases h⟩
+    · exact ⟨by simp, fun t st' h => by cases h; exact hc⟩
+
+theorem bdd_dUintLen : BddStep dUintLen := by
+  intro st p rest hl
+  unfold dUintLen
+  cases st.nums with
+  | nil => exact ⟨by simp, fun _ _ h => by cases h⟩
+  | cons len _ =>
+    simp only []
+    rcases derTUINTDec2_cases rest 2 len hl with e | ⟨v, c, e, hc, _⟩
+    · rw [e]; exact ⟨by simp, fun _ _ h => by cases h⟩
+    · rw [e]; exact ⟨by simp, fun t st' h => by cases h; exact hc⟩
+
+theorem bdd_dOpt (f : List UInt8 → R Nat) (hf : BddPrim f id) : BddStep (dOpt f) := by
+  intro st p rest hl
+  obtain ⟨h1, h2⟩ := hf rest hl
+  unfold dOpt
+  cases hfr : f rest with
+  | ok t => exact ⟨by simp, fun t' st' h => by cases h; exact h2 t hfr⟩
+  | err => exact ⟨by simp, fun t' st' h => by cases h; exact Nat.zero_le _⟩
+  | oob => exact absurd hfr h1
+
+theorem bdd_bitDec2v (len : Nat) : BddPrim (bitDec2v len) Prod.snd := by
+  intro xs hl
+  unfold bitDec2v
+  rcases derTBITDec2_cases xs 3 len hl with e | ⟨v, c, e, hc⟩
+  · rw [e]; exact ⟨by simp, fun _ h => by cases h⟩
+  · rw [e]; exact ⟨by simp, fun a h => by cases h; exact hc⟩
+
 end Bee2V.C08
